@@ -21,8 +21,8 @@ def _opt_list(elem, max_size=5):
 
 
 @st.composite
-def _cases(draw):
-    s = draw(gen.score_sets(min_pos=1, min_neg=1, max_size=9,
+def _cases(draw, max_size=9):
+    s = draw(gen.score_sets(min_pos=1, min_neg=1, max_size=max_size,
                             modes=("grid", "grid", "dyadic", "distinct", "int", "float"), mag=1e6))
     pops = [len(s["pos"]) + s["ep"], len(s["neg"]) + s["en"]]
     tgt = gen.target_values(pops)
@@ -120,6 +120,6 @@ PROP = Prop(
           "complements/aliases; unknown x_axis raises ValueError. Non-trivial = some curve of the "
           "case has >=3 distinct thresholds (score_class=neg and decreasing axes are always among "
           "the 32 curves of a case)."),
-    clauses=[Clause("roc", check, strategy=_cases(), quick=150, thorough=800, quick_shards=4, fuzz=3000,
+    clauses=[Clause("roc", check, strategy=lambda tier: _cases(9 if tier == "quick" else 30), quick=150, thorough=8000, quick_shards=4, fuzz=3000,
                     min_nontrivial=100, doc="roc(): rates, order, support, counts, views")],
 )
